@@ -1,6 +1,9 @@
-// sites: typed inventory of /repo's own non-test code (stdlib go/types with the source importer):
-//   (a) `range` over map-typed expressions, (b) panic-capable constructs, (c) `for` statements and
-//   recursion, (d) calls into os / io/fs / time / math/rand / runtime / path/filepath.
+// sites: typed inventory of /repo's own non-test code (stdlib go/types with the source importer).
+// The facts are CLASSIFIED, not located: a construct that is guarded in a recognisable way (an index by the key of a
+// `range` over the same slice, a sort callback, a constant index under a length check, a map range that only collects
+// keys which are then sorted, …) is counted under its class; only constructs the tool cannot classify are listed by
+// key (package.function: construct). Moving, renaming or restructuring guarded code therefore changes nothing, while a
+// new unguarded construct, a raw range over a map, a non-plain comparator, recursion or an ambient call is a new fact.
 // usage (cwd = /repo): sites <outdir>   → writes <outdir>/Sites.lean
 package main
 
@@ -15,10 +18,13 @@ import (
 	"os"
 	"path/filepath"
 	"sort"
+	"strconv"
 	"strings"
 )
 
-func exprStr(fset *token.FileSet, e ast.Node) string {
+var fset = token.NewFileSet()
+
+func exprStr(e ast.Node) string {
 	var b strings.Builder
 	_ = printer.Fprint(&b, fset, e)
 	return strings.Join(strings.Fields(b.String()), " ")
@@ -40,20 +46,395 @@ func leanList(l []string) string {
 	return "[" + strings.Join(q, ", ") + "]"
 }
 
+// ---------------------------------------------------------------------------------------------------------------
+// guards
+
+type walker struct {
+	info  *types.Info
+	fn    string
+	fd    *ast.FuncDecl
+	stack []ast.Node
+}
+
+func intLit(e ast.Expr) (int, bool) {
+	if bl, ok := e.(*ast.BasicLit); ok && bl.Kind == token.INT {
+		n, err := strconv.Atoi(bl.Value)
+		return n, err == nil
+	}
+	return 0, false
+}
+
+// lenOf reports whether e is `len(base)`
+func lenOf(e ast.Expr, base string) bool {
+	c, ok := e.(*ast.CallExpr)
+	if !ok || len(c.Args) != 1 {
+		return false
+	}
+	id, ok := c.Fun.(*ast.Ident)
+	return ok && id.Name == "len" && exprStr(c.Args[0]) == base
+}
+
+// impliesLenGreater: does `cond` being TRUE imply len(base) > c ?
+func impliesLenGreater(cond ast.Expr, base string, c int) bool {
+	switch x := cond.(type) {
+	case *ast.ParenExpr:
+		return impliesLenGreater(x.X, base, c)
+	case *ast.BinaryExpr:
+		if x.Op == token.LAND {
+			return impliesLenGreater(x.X, base, c) || impliesLenGreater(x.Y, base, c)
+		}
+		if lenOf(x.X, base) {
+			if k, ok := intLit(x.Y); ok {
+				switch x.Op {
+				case token.GTR:
+					return k >= c
+				case token.GEQ, token.EQL:
+					return k > c
+				case token.NEQ:
+					return k == 0 && c == 0
+				}
+			}
+		}
+	}
+	return false
+}
+
+// refutesLenGreater: does `cond` being FALSE imply len(base) > c ?  (cond is a disjunction that covers len(base) <= c)
+func refutesLenGreater(cond ast.Expr, base string, c int) bool {
+	switch x := cond.(type) {
+	case *ast.ParenExpr:
+		return refutesLenGreater(x.X, base, c)
+	case *ast.BinaryExpr:
+		if x.Op == token.LOR {
+			return refutesLenGreater(x.X, base, c) || refutesLenGreater(x.Y, base, c)
+		}
+		if lenOf(x.X, base) {
+			if k, ok := intLit(x.Y); ok {
+				switch x.Op {
+				case token.EQL:
+					return k == 0 && c == 0
+				case token.LSS:
+					return k > c
+				case token.LEQ:
+					return k >= c
+				}
+			}
+		}
+	}
+	return false
+}
+
+func terminates(b *ast.BlockStmt) bool {
+	if b == nil || len(b.List) == 0 {
+		return false
+	}
+	switch s := b.List[len(b.List)-1].(type) {
+	case *ast.ReturnStmt:
+		return true
+	case *ast.BranchStmt:
+		return s.Tok == token.CONTINUE || s.Tok == token.BREAK
+	case *ast.ExprStmt:
+		if c, ok := s.X.(*ast.CallExpr); ok {
+			if id, ok := c.Fun.(*ast.Ident); ok && id.Name == "panic" {
+				return true
+			}
+		}
+	}
+	return false
+}
+
+// lenGuarded: is the node on top of the stack dominated by a check that makes len(base) > c ?
+func (w *walker) lenGuarded(base string, c int) bool {
+	for i := len(w.stack) - 2; i >= 0; i-- {
+		child := w.stack[i+1]
+		switch p := w.stack[i].(type) {
+		case *ast.IfStmt:
+			if p.Body == child && impliesLenGreater(p.Cond, base, c) {
+				return true
+			}
+			if p.Else == child && refutesLenGreater(p.Cond, base, c) {
+				return true
+			}
+		case *ast.BlockStmt:
+			for _, s := range p.List {
+				if s == child {
+					break
+				}
+				if is, ok := s.(*ast.IfStmt); ok && is.Init == nil && terminates(is.Body) && refutesLenGreater(is.Cond, base, c) {
+					return true
+				}
+			}
+		case *ast.FuncLit:
+			return false
+		}
+	}
+	return false
+}
+
+// madeWithLen: was `base` created as make(T, len(of)) somewhere in this function ?
+func (w *walker) madeWithLen(base, of string) bool {
+	found := false
+	ast.Inspect(w.fd.Body, func(n ast.Node) bool {
+		as, ok := n.(*ast.AssignStmt)
+		if !ok || len(as.Lhs) != 1 || len(as.Rhs) != 1 || exprStr(as.Lhs[0]) != base {
+			return true
+		}
+		c, ok := as.Rhs[0].(*ast.CallExpr)
+		if !ok || len(c.Args) != 2 {
+			return true
+		}
+		if id, ok := c.Fun.(*ast.Ident); ok && id.Name == "make" && lenOf(c.Args[1], of) {
+			found = true
+		}
+		return true
+	})
+	return found
+}
+
+func isSortCall(c *ast.CallExpr) (string, bool) {
+	sel, ok := c.Fun.(*ast.SelectorExpr)
+	if !ok {
+		return "", false
+	}
+	id, ok := sel.X.(*ast.Ident)
+	if !ok || (id.Name != "sort" && id.Name != "slices") {
+		return "", false
+	}
+	return id.Name + "." + sel.Sel.Name, true
+}
+
+// indexClass: the guard class of x[idx], or "" when none is recognised
+func (w *walker) indexClass(x *ast.IndexExpr) string {
+	base := exprStr(x.X)
+	if c, ok := intLit(x.Index); ok {
+		if w.lenGuarded(base, c) {
+			return "constant index under a length check"
+		}
+		return ""
+	}
+	id, ok := x.Index.(*ast.Ident)
+	if !ok {
+		return ""
+	}
+	for i := len(w.stack) - 2; i >= 0; i-- {
+		switch p := w.stack[i].(type) {
+		case *ast.RangeStmt:
+			if k, ok := p.Key.(*ast.Ident); ok && k.Name == id.Name {
+				r := exprStr(p.X)
+				if r == base {
+					return "index by the key of a range over the same slice"
+				}
+				if w.madeWithLen(base, r) {
+					return "index by a range key into a slice made with that length"
+				}
+				return ""
+			}
+		case *ast.ForStmt:
+			if as, ok := p.Init.(*ast.AssignStmt); ok && len(as.Lhs) == 1 && exprStr(as.Lhs[0]) == id.Name {
+				if be, ok := p.Cond.(*ast.BinaryExpr); ok && be.Op == token.LSS && exprStr(be.X) == id.Name && lenOf(be.Y, base) {
+					return "index by the counter of a loop bounded by len of the same slice"
+				}
+				return ""
+			}
+		case *ast.FuncLit:
+			// a comparator passed to a sort function over the same slice
+			if i > 0 {
+				if call, ok := w.stack[i-1].(*ast.CallExpr); ok {
+					if _, ok := isSortCall(call); ok && len(call.Args) >= 2 && exprStr(call.Args[0]) == base {
+						for _, f := range p.Type.Params.List {
+							for _, n := range f.Names {
+								if n.Name == id.Name {
+									return "index by a sort callback argument"
+								}
+							}
+						}
+					}
+				}
+			}
+			return ""
+		}
+	}
+	return ""
+}
+
+func (w *walker) sliceClass(x *ast.SliceExpr) string {
+	if x.High != nil || x.Max != nil {
+		return ""
+	}
+	if x.Low == nil {
+		return "full slice"
+	}
+	if c, ok := intLit(x.Low); ok {
+		if c == 0 || w.lenGuarded(exprStr(x.X), c-1) {
+			return "constant slice bound under a length check"
+		}
+	}
+	return ""
+}
+
+// ---------------------------------------------------------------------------------------------------------------
+// ordering classes of sort calls
+
+// isStringLike: string, a named string type, or a type parameter all of whose terms are (~)string
+func isStringLike(t types.Type) bool {
+	if tp, ok := t.(*types.TypeParam); ok {
+		iface, ok := tp.Constraint().Underlying().(*types.Interface)
+		if !ok || iface.NumEmbeddeds() == 0 {
+			return false
+		}
+		for i := 0; i < iface.NumEmbeddeds(); i++ {
+			switch e := iface.EmbeddedType(i).(type) {
+			case *types.Union:
+				for j := 0; j < e.Len(); j++ {
+					if !isStringLike(e.Term(j).Type()) {
+						return false
+					}
+				}
+			default:
+				if !isStringLike(e) {
+					return false
+				}
+			}
+		}
+		return true
+	}
+	b, ok := t.Underlying().(*types.Basic)
+	return ok && b.Kind() == types.String
+}
+
+func sortClass(call *ast.CallExpr, name string, info *types.Info) string {
+	switch name {
+	case "sort.Strings", "slices.Sort":
+		if len(call.Args) == 1 {
+			if tv, ok := info.Types[call.Args[0]]; ok {
+				if sl, ok := tv.Type.Underlying().(*types.Slice); ok && isStringLike(sl.Elem()) {
+					return "ascending: the strings themselves"
+				}
+			}
+		}
+	case "sort.Slice", "sort.SliceStable":
+		if len(call.Args) == 2 {
+			if fl, ok := call.Args[1].(*ast.FuncLit); ok && len(fl.Body.List) == 1 && len(fl.Type.Params.List) > 0 {
+				var ps []string
+				for _, f := range fl.Type.Params.List {
+					for _, n := range f.Names {
+						ps = append(ps, n.Name)
+					}
+				}
+				if rs, ok := fl.Body.List[0].(*ast.ReturnStmt); ok && len(rs.Results) == 1 && len(ps) == 2 {
+					if be, ok := rs.Results[0].(*ast.BinaryExpr); ok && be.Op == token.LSS {
+						base := exprStr(call.Args[0])
+						l, r := exprStr(be.X), exprStr(be.Y)
+						pl, pr := base+"["+ps[0]+"]", base+"["+ps[1]+"]"
+						if strings.HasPrefix(l, pl) && strings.HasPrefix(r, pr) && l[len(pl):] == r[len(pr):] {
+							// both sides must be strings
+							if tv, ok := info.Types[be.X]; ok && isStringLike(tv.Type) {
+								if l[len(pl):] == "" {
+									return "ascending: the strings themselves"
+								}
+								return "ascending: string field " + l[len(pl):]
+							}
+						}
+					}
+				}
+			}
+		}
+	}
+	return "other: " + exprStr(call)
+}
+
+// ---------------------------------------------------------------------------------------------------------------
+// map ranges
+
+// mapRangeClass: what the body of a `range` over a map does
+func (w *walker) mapRangeClass(rs *ast.RangeStmt) string {
+	key := ""
+	if k, ok := rs.Key.(*ast.Ident); ok {
+		key = k.Name
+	}
+	// (a) every statement stores into a map under the range key (distinct keys: order cannot matter)
+	intoMap := len(rs.Body.List) > 0
+	for _, s := range rs.Body.List {
+		as, ok := s.(*ast.AssignStmt)
+		if !ok || len(as.Lhs) != 1 || as.Tok != token.ASSIGN {
+			intoMap = false
+			break
+		}
+		ix, ok := as.Lhs[0].(*ast.IndexExpr)
+		if !ok || key == "" || exprStr(ix.Index) != key {
+			intoMap = false
+			break
+		}
+		if tv, ok := w.info.Types[ix.X]; !ok {
+			intoMap = false
+			break
+		} else if _, isMap := tv.Type.Underlying().(*types.Map); !isMap {
+			intoMap = false
+			break
+		}
+	}
+	if intoMap {
+		return "stores under the range key into another map"
+	}
+	// (b) every statement appends to ONE slice, and that slice is sorted later in the same function
+	target := ""
+	for _, s := range rs.Body.List {
+		as, ok := s.(*ast.AssignStmt)
+		if !ok || len(as.Lhs) != 1 || len(as.Rhs) != 1 {
+			return ""
+		}
+		c, ok := as.Rhs[0].(*ast.CallExpr)
+		if !ok || len(c.Args) < 2 {
+			return ""
+		}
+		if id, ok := c.Fun.(*ast.Ident); !ok || id.Name != "append" {
+			return ""
+		}
+		t := exprStr(as.Lhs[0])
+		if exprStr(c.Args[0]) != t || (target != "" && target != t) {
+			return ""
+		}
+		target = t
+	}
+	if target == "" {
+		return ""
+	}
+	sorted := false
+	after := false
+	ast.Inspect(w.fd.Body, func(n ast.Node) bool {
+		if n == ast.Node(rs) {
+			after = true
+			return false
+		}
+		if c, ok := n.(*ast.CallExpr); ok && after {
+			if _, ok := isSortCall(c); ok && len(c.Args) >= 1 && exprStr(c.Args[0]) == target {
+				sorted = true
+			}
+		}
+		return true
+	})
+	if sorted {
+		return "collects into a slice that is sorted afterwards"
+	}
+	return ""
+}
+
+// ---------------------------------------------------------------------------------------------------------------
+
 func main() {
 	out := os.Args[1]
-	fset := token.NewFileSet()
 	imp := importer.ForCompiler(fset, "source", nil)
 	var dirs []string
 	_ = filepath.Walk(".", func(p string, info os.FileInfo, err error) error {
-		if err == nil && info.IsDir() && !strings.HasPrefix(p, ".git") && !strings.Contains(p, "testdata") {
+		if err == nil && info.IsDir() && !strings.HasPrefix(p, ".git") && !strings.Contains(p, "testdata") && !strings.HasPrefix(filepath.Base(p), "_") {
 			dirs = append(dirs, p)
 		}
 		return nil
 	})
 	sort.Strings(dirs)
-	var mapRanges, panics, loops, ambient, stepNames, sorts []string
-	calls := map[string][]string{}
+	var mapRanges, panics, loops, ambient, ambientAPIs, stepNames, sorts, mapClasses []string
+	guarded := map[string]int{}
+	callGraph := map[string][]string{}
 	for _, d := range dirs {
 		pkgs, err := parser.ParseDir(fset, d, func(fi os.FileInfo) bool {
 			return !strings.HasSuffix(fi.Name(), "_test.go") && !(d == "internal/gontainer" && fi.Name() == "gontainer.go")
@@ -71,9 +452,26 @@ func main() {
 			for _, n := range names {
 				files = append(files, p.Files[n])
 			}
-			info := &types.Info{Types: map[ast.Expr]types.TypeAndValue{}, Uses: map[*ast.Ident]types.Object{}, Selections: map[*ast.SelectorExpr]*types.Selection{}}
+			info := &types.Info{Types: map[ast.Expr]types.TypeAndValue{}, Uses: map[*ast.Ident]types.Object{}, Defs: map[*ast.Ident]types.Object{},
+				Selections: map[*ast.SelectorExpr]*types.Selection{}}
 			conf := types.Config{Importer: imp, Error: func(error) {}}
 			_, _ = conf.Check(d, fset, files, info)
+			commaOk := map[*ast.TypeAssertExpr]bool{}
+			for _, f := range files {
+				ast.Inspect(f, func(n ast.Node) bool {
+					if as, ok := n.(*ast.AssignStmt); ok && len(as.Lhs) == 2 && len(as.Rhs) == 1 {
+						if ta, ok := as.Rhs[0].(*ast.TypeAssertExpr); ok {
+							commaOk[ta] = true
+						}
+					}
+					if vs, ok := n.(*ast.ValueSpec); ok && len(vs.Names) == 2 && len(vs.Values) == 1 {
+						if ta, ok := vs.Values[0].(*ast.TypeAssertExpr); ok {
+							commaOk[ta] = true
+						}
+					}
+					return true
+				})
+			}
 			for _, f := range files {
 				for _, decl := range f.Decls {
 					fd, ok := decl.(*ast.FuncDecl)
@@ -82,7 +480,11 @@ func main() {
 					}
 					fn := pname + "." + fd.Name.Name
 					if fd.Recv != nil && len(fd.Recv.List) > 0 {
-						fn = pname + "." + strings.TrimPrefix(exprStr(fset, fd.Recv.List[0].Type), "*") + "." + fd.Name.Name
+						fn = pname + "." + strings.TrimPrefix(exprStr(fd.Recv.List[0].Type), "*") + "." + fd.Name.Name
+					}
+					self := ""
+					if o, ok := info.Defs[fd.Name].(*types.Func); ok {
+						self = o.FullName()
 					}
 					if fd.Name.Name == "Name" && fd.Recv != nil {
 						ast.Inspect(fd.Body, func(n ast.Node) bool {
@@ -94,15 +496,25 @@ func main() {
 							return true
 						})
 					}
+					w := &walker{info: info, fn: fn, fd: fd}
 					ast.Inspect(fd.Body, func(n ast.Node) bool {
+						if n == nil {
+							w.stack = w.stack[:len(w.stack)-1]
+							return true
+						}
+						w.stack = append(w.stack, n)
 						switch x := n.(type) {
 						case *ast.RangeStmt:
 							if tv, ok := info.Types[x.X]; ok {
 								if _, isMap := tv.Type.Underlying().(*types.Map); isMap {
-									mapRanges = append(mapRanges, fn+": range "+exprStr(fset, x.X))
+									if c := w.mapRangeClass(x); c != "" {
+										mapClasses = append(mapClasses, c)
+									} else {
+										mapRanges = append(mapRanges, fn+": range "+exprStr(x.X))
+									}
 								}
 							}
-							loops = append(loops, fn+": range")
+							loops = append(loops, "range")
 						case *ast.ForStmt:
 							kind := "for-cond"
 							if x.Cond == nil {
@@ -110,55 +522,72 @@ func main() {
 							} else if x.Init != nil && x.Post != nil {
 								kind = "for-counted"
 							}
-							loops = append(loops, fn+": "+kind)
+							loops = append(loops, kind)
 						case *ast.IndexExpr:
 							if tv, ok := info.Types[x.X]; ok {
 								switch tv.Type.Underlying().(type) {
-								case *types.Slice, *types.Array, *types.Basic:
-									panics = append(panics, fn+": index "+exprStr(fset, x))
-								case *types.Pointer:
-									panics = append(panics, fn+": index "+exprStr(fset, x))
+								case *types.Slice, *types.Array, *types.Basic, *types.Pointer:
+									if c := w.indexClass(x); c != "" {
+										guarded[c]++
+									} else {
+										panics = append(panics, fn+": index "+exprStr(x))
+									}
 								}
 							}
 						case *ast.SliceExpr:
-							panics = append(panics, fn+": slice "+exprStr(fset, x))
+							if c := w.sliceClass(x); c != "" {
+								guarded[c]++
+							} else {
+								panics = append(panics, fn+": slice "+exprStr(x))
+							}
 						case *ast.TypeAssertExpr:
 							if x.Type != nil {
-								panics = append(panics, fn+": assert "+exprStr(fset, x))
+								if commaOk[x] {
+									guarded["type assertion in comma-ok form"]++
+								} else {
+									panics = append(panics, fn+": assert "+exprStr(x))
+								}
 							}
 						case *ast.CallExpr:
-							callee := exprStr(fset, x.Fun)
+							callee := exprStr(x.Fun)
 							if callee == "panic" {
 								panics = append(panics, fn+": panic")
 							}
+							if name, ok := isSortCall(x); ok && (strings.HasPrefix(name, "sort.") || strings.HasPrefix(name, "slices.Sort")) {
+								sorts = append(sorts, sortClass(x, name, info))
+							}
+							var obj types.Object
 							if sel, ok := x.Fun.(*ast.SelectorExpr); ok {
-								if id, ok := sel.X.(*ast.Ident); ok && id.Name == "sort" {
-									// the ordering used: comparator body (or the whole call for sort.Strings & co.)
-									cmp := exprStr(fset, x)
-									if len(x.Args) == 2 {
-										if fl, ok := x.Args[1].(*ast.FuncLit); ok {
-											cmp = "sort." + sel.Sel.Name + ": " + exprStr(fset, fl.Body)
-										}
-									}
-									sorts = append(sorts, fn+": "+cmp)
-								}
+								obj = info.Uses[sel.Sel]
 								if strings.HasPrefix(sel.Sel.Name, "Must") {
 									panics = append(panics, fn+": "+callee)
 								}
 								if callee == "strings.Repeat" {
-									panics = append(panics, fn+": strings.Repeat "+exprStr(fset, x.Args[1]))
+									panics = append(panics, fn+": strings.Repeat "+exprStr(x.Args[1]))
 								}
 								if id, ok := sel.X.(*ast.Ident); ok {
-									if obj, ok := info.Uses[id].(*types.PkgName); ok {
-										switch obj.Imported().Path() {
+									if pk, ok := info.Uses[id].(*types.PkgName); ok {
+										switch pk.Imported().Path() {
 										case "os", "io/fs", "time", "math/rand", "runtime", "path/filepath", "os/exec", "net", "net/http":
-											ambient = append(ambient, fn+": "+obj.Imported().Path()+"."+sel.Sel.Name)
+											ambient = append(ambient, fn+": "+pk.Imported().Path()+"."+sel.Sel.Name)
+											ambientAPIs = append(ambientAPIs, pk.Imported().Path()+"."+sel.Sel.Name)
 										}
 									}
 								}
-								calls[fn] = append(calls[fn], sel.Sel.Name)
 							} else if id, ok := x.Fun.(*ast.Ident); ok {
-								calls[fn] = append(calls[fn], id.Name)
+								obj = info.Uses[id]
+							}
+							// static call graph: calls that resolve to a concrete function or method of the module itself
+							if f, ok := obj.(*types.Func); ok && self != "" && f.Pkg() != nil && strings.HasPrefix(f.Pkg().Path(), "github.com/gontainer/gontainer") {
+								static := true
+								if sig, ok := f.Type().(*types.Signature); ok && sig.Recv() != nil {
+									if _, isIface := sig.Recv().Type().Underlying().(*types.Interface); isIface {
+										static = false
+									}
+								}
+								if static {
+									callGraph[self] = append(callGraph[self], f.FullName())
+								}
 							}
 						}
 						return true
@@ -167,38 +596,45 @@ func main() {
 			}
 		}
 	}
-	// comma-ok assertions are not panic sites: the parser gives them as the single RHS of a 2-value assignment; filter textually
-	// (handled by re-walk: cheap heuristic — an assertion inside `x, ok := y.(T)` or `if _, ok := …`)
-	panics = filterCommaOk(fset, dirs, panics)
-	// direct recursion (by simple name) — a coarse over-approximation of call-graph cycles
+	// functions on a cycle of the static call graph (recursion, direct or mutual)
 	var rec []string
-	for fn, cs := range calls {
-		short := fn[strings.LastIndex(fn, ".")+1:]
-		for _, c := range cs {
-			if c == short {
-				rec = append(rec, fn)
+	for f := range callGraph {
+		seen := map[string]bool{}
+		var todo []string
+		todo = append(todo, callGraph[f]...)
+		for len(todo) > 0 {
+			g := todo[len(todo)-1]
+			todo = todo[:len(todo)-1]
+			if g == f {
+				rec = append(rec, f)
 				break
 			}
+			if seen[g] {
+				continue
+			}
+			seen[g] = true
+			todo = append(todo, callGraph[g]...)
 		}
 	}
-	for _, l := range [](*[]string){&mapRanges, &panics, &loops, &ambient, &stepNames, &rec, &sorts} {
+	for _, l := range [](*[]string){&mapRanges, &panics, &loops, &ambient, &ambientAPIs, &stepNames, &rec, &sorts, &mapClasses} {
 		sort.Strings(*l)
 	}
+	var gl []string
+	for c, n := range guarded {
+		gl = append(gl, fmt.Sprintf("(%s, %d)", leanStr(c), n))
+	}
+	sort.Strings(gl)
 	var b strings.Builder
 	b.WriteString("/- REGENERATED by /verif/tools/sites (go/types, source importer) from every non-test .go file of /repo\n   except the generated internal/gontainer/gontainer.go — do not edit. -/\nnamespace GM.Generated\n\n")
-	fmt.Fprintf(&b, "/-- `range` statements over map-typed expressions -/\ndef mapRangeSites : List String := %s\n\n", leanList(uniq(mapRanges)))
-	fmt.Fprintf(&b, "/-- every call into package sort with the ordering it uses (comparator body) -/\ndef sortSites : List String := %s\n\n", leanList(uniq(sorts)))
-	fmt.Fprintf(&b, "/-- constructs that can panic: slice/array/string index, slice expression, type assertion without comma-ok, explicit panic, Must* call, strings.Repeat -/\ndef panicSites : List String := %s\n\n", leanList(uniq(panics)))
-	{
-		var ps []string
-		for _, l := range uniq(loops) {
-			i := strings.LastIndex(l, ": ")
-			ps = append(ps, "("+leanStr(l[:i])+", "+leanStr(l[i+2:])+")")
-		}
-		fmt.Fprintf(&b, "/-- every `for` statement: (function, kind) -/\ndef loopSites : List (String × String) := [%s]\n\n", strings.Join(ps, ", "))
-	}
-	fmt.Fprintf(&b, "/-- functions that call a function of their own name (coarse recursion check) -/\ndef selfCalls : List String := %s\n\n", leanList(uniq(rec)))
-	fmt.Fprintf(&b, "/-- calls into os, io/fs, time, math/rand, runtime, path/filepath, os/exec, net -/\ndef ambientCalls : List String := %s\n\n", leanList(uniq(ambient)))
+	fmt.Fprintf(&b, "/-- `range` statements over map-typed expressions whose body is of a recognised order-independent form (class, one entry per site) -/\ndef mapRangeClasses : List String := %s\n\n", leanList(mapClasses))
+	fmt.Fprintf(&b, "/-- the other `range` statements over map-typed expressions, by location -/\ndef mapRangeSites : List String := %s\n\n", leanList(uniq(mapRanges)))
+	fmt.Fprintf(&b, "/-- the ordering of every sort call (one entry per call) -/\ndef sortSites : List String := %s\n\n", leanList(sorts))
+	fmt.Fprintf(&b, "/-- panic-capable constructs that are guarded in a recognised way: (guard, number of sites) -/\ndef guardedSites : List (String × Nat) := [%s]\n\n", strings.Join(gl, ", "))
+	fmt.Fprintf(&b, "/-- the other constructs that can panic, by location: slice/array/string index, slice expression, type assertion without comma-ok, explicit panic, Must* call, strings.Repeat -/\ndef panicSites : List String := %s\n\n", leanList(uniq(panics)))
+	fmt.Fprintf(&b, "/-- the kind of every `for` statement (one entry per kind that occurs) -/\ndef loopKinds : List String := %s\n\n", leanList(uniq(loops)))
+	fmt.Fprintf(&b, "/-- functions on a cycle of the static call graph of the module (calls through interfaces excluded) -/\ndef recursiveFuncs : List String := %s\n\n", leanList(uniq(rec)))
+	fmt.Fprintf(&b, "/-- the functions of os, io/fs, time, math/rand, runtime, path/filepath, os/exec, net the module calls -/\ndef ambientAPIs : List String := %s\n\n", leanList(uniq(ambientAPIs)))
+	fmt.Fprintf(&b, "/-- … and where (package.function: API) -/\ndef ambientCalls : List String := %s\n\n", leanList(uniq(ambient)))
 	fmt.Fprintf(&b, "/-- literal step names returned by Name() methods -/\ndef stepNames : List String := %s\n\nend GM.Generated\n", leanList(uniq(stepNames)))
 	path := filepath.Join(out, "Sites.lean")
 	old, err := os.ReadFile(path)
@@ -216,42 +652,6 @@ func uniq(l []string) []string {
 		if i == 0 || s != l[i-1] {
 			r = append(r, s)
 		}
-	}
-	return r
-}
-
-// filterCommaOk drops `assert` entries whose expression text occurs in the source as the RHS of a two-value assignment
-func filterCommaOk(fset *token.FileSet, dirs []string, panics []string) []string {
-	commaOk := map[string]bool{}
-	for _, d := range dirs {
-		pkgs, err := parser.ParseDir(fset, d, func(fi os.FileInfo) bool { return !strings.HasSuffix(fi.Name(), "_test.go") }, 0)
-		if err != nil {
-			continue
-		}
-		for _, p := range pkgs {
-			for _, f := range p.Files {
-				ast.Inspect(f, func(n ast.Node) bool {
-					if as, ok := n.(*ast.AssignStmt); ok && len(as.Lhs) == 2 && len(as.Rhs) == 1 {
-						if ta, ok := as.Rhs[0].(*ast.TypeAssertExpr); ok {
-							commaOk[exprStr(fset, ta)] = true
-						}
-					}
-					if vs, ok := n.(*ast.ValueSpec); ok && len(vs.Names) == 2 && len(vs.Values) == 1 {
-						if ta, ok := vs.Values[0].(*ast.TypeAssertExpr); ok {
-							commaOk[exprStr(fset, ta)] = true
-						}
-					}
-					return true
-				})
-			}
-		}
-	}
-	var r []string
-	for _, p := range panics {
-		if i := strings.Index(p, ": assert "); i >= 0 && commaOk[p[i+len(": assert "):]] {
-			continue
-		}
-		r = append(r, p)
 	}
 	return r
 }
